@@ -12,6 +12,7 @@ fn setup(ctx: &mut Ctx) {
     ctx.floor("reads_offset_overflow_err", 10);
     ctx.floor("spec:NativeEndian", 100);
     ctx.floor("spec:AnyEndian::Big", 100);
+    ctx.floor("offset:2^k+d", 1000);
 }
 
 fn sweep_cases() -> u64 {
@@ -23,6 +24,8 @@ fn strata(t: Tier) -> Vec<Stratum> {
     vec![
         ex("u8-u16-exhaustive", scale(t, sweep_cases(), sweep_cases(), 4)),
         ex("wide-boundary", scale(t, 25, 25, 3)),
+        // every offset 2^k + d, k = 1..BITS-1, d in -9..=len+9, on buffers of length 0..=16
+        ex("power-of-two-offsets", scale(t, usize::BITS as u64 - 1, usize::BITS as u64 - 1, 6)),
         st("wide-random", scale(t, 600_000, 6_000_000, 30)),
     ]
 }
@@ -220,6 +223,21 @@ fn run(ctx: &mut Ctx, si: usize, case: u64) {
                                 check_all_specs(ctx, ty, off, &buf, len == 24);
                             }
                         }
+                    }
+                }
+            }
+        }
+        2 => {
+            let k = 1 + (case as u32 % (usize::BITS - 1));
+            let base = 1usize << k;
+            ctx.sample(|| format!("offsets 2^{k} + d for d in -9..=len+9, buffers of length 0..=16, 6 types x 5 specs"));
+            for len in [0usize, 1, 2, 7, 8, 16] {
+                let buf: Vec<u8> = (0..len).map(|i| (i * 29 + 3) as u8).collect();
+                for d in -9i64..=(len as i64 + 9) {
+                    let off = if d < 0 { base.wrapping_sub((-d) as usize) } else { base.wrapping_add(d as usize) };
+                    ctx.count("offset:2^k+d");
+                    for ty in TYPES {
+                        check_all_specs(ctx, ty, off, &buf, false);
                     }
                 }
             }
